@@ -486,13 +486,16 @@ def run(ctx):
     st, info = H.bfs(GateSpec, depth=depth, seed=ctx.seed, jobs=ctx.jobs)
     matrix(st)
     st.outcomes |= set(list(st.inputs)[:1000])
+    spec_roots = GateSpec().roots()
     return {
         'stats': st, 'exhaustive': True,
-        'rule': 'explicit-state BFS to depth %d from %d roots (7 declared versions x constructor variants holding each value kind): every entry '
-                'path (13: metadata set/append/extend/add_item/update, column metadata set/append, column assignment, append/insert/extend/+=/'
-                'setitem) x every value kind (7) applied to every reachable state; gating invariant and both writers evaluated on every state; '
-                'plus the complete agreement matrix 6 versions x 7 kinds x 7 deciders; state = (declared version, reported version, places '
-                'holding 3.0-only data, row count, metadata/column shape)' % (depth, 7 * 22),
+        'rule': 'explicit-state BFS to depth %d from %d roots (7 declared versions x {plain, constructor variants holding each value kind, donor headers, 3 preludes of '
+                'earlier activity from the import-time module state, copy / deepcopy / deepcopy with the original collected}): every entry path (%d: metadata '
+                'set/append/extend/add_item/update, column metadata set/append, column assignment, append/insert/extend/+=/setitem, rows with undeclared tags, '
+                'insert at clamped positions) x every value kind (%d, incl. instances of subclasses of the container kinds) and 5 observation reads (repr, '
+                'ver_str, both dumps, ==) applied to every reachable state; gating invariant, row preservation on refusal, originals of copies and both '
+                'writers evaluated on every state; plus the complete agreement matrix 6 versions x kinds x 7 deciders; state = (declared version, prelude, '
+                'extra instance attributes, reported version, places holding 3.0-only data, row count, metadata/column shape)' % (depth, len(spec_roots), len(PATHS), len(KINDS)),
         'coverage': {'bounds': {'versions': VERSIONS, 'kinds': KINDS, 'paths': PATHS, 'depth': depth, 'info': info}},
         'assumptions': ['"pre-3.0" is decided by ref/refversion.py on the declared version string; a grid created without a version must '
                         'report >= 3.0 as soon as 3.0-only data is reachable from it'],
